@@ -294,6 +294,46 @@ pub fn run(args: &Args) {
             }
         }
     }
+    // three savers, exhaustive, for the smallest configurations (thorough tier)
+    if thorough {
+        for k in [1usize, 2] {
+            for mode in ["disjoint", "overlap", "shared-reference"] {
+                let books = make_books(k, mode, mode == "shared-reference", 3);
+                let label = format!("dfs3 k={} {}", k, mode);
+                let mut prefix: Vec<usize> = vec![];
+                loop {
+                    let pfx = prefix.clone();
+                    let r = run_schedule(&books, true, &sched, &mut |step, _n| if step < pfx.len() { pfx[step] } else { 0 });
+                    schedules += 1;
+                    *per_config.entry(label.clone()).or_insert(0) += 1;
+                    let sig: Vec<usize> = r.log.iter().filter(|e| e.1 != "sst.reg.done").map(|e| e.0).collect();
+                    let mut key = vec![k, 3, fnv(mode) as usize % 997];
+                    key.extend(sig);
+                    distinct.insert(key);
+                    check_run(&mut o, &books, &r, &label);
+                    if r.stuck.is_some() || o.divs.len() > 20 || per_config[&label] > 60_000 {
+                        break;
+                    }
+                    let mut c = r.choices.clone();
+                    let mut i = c.len();
+                    let mut advanced = false;
+                    while i > 0 {
+                        i -= 1;
+                        if c[i] + 1 < r.options[i] {
+                            c[i] += 1;
+                            c.truncate(i + 1);
+                            advanced = true;
+                            break;
+                        }
+                    }
+                    if !advanced {
+                        break;
+                    }
+                    prefix = c;
+                }
+            }
+        }
+    }
     let dfs_schedules = schedules;
     // (a2) seeded random schedules, 3 savers, more strings
     let nrandom = if thorough { 20_000 } else { 400 };
